@@ -95,21 +95,24 @@ func checkC17(c *Ctx) {
 	if fn := c.Fn("G6.pair", "efi/util.StringToGUID"); fn != nil {
 		guidFile[fn] = true
 		// text -> hex decode (dashes removed) -> BytesToGUID
-		ok := false
+		ok, det := false, "result does not derive from BytesToGUID(hex.DecodeString(text))"
 		dv := c.deepViewOf(fn, 3)
 		dv.stopAt = map[string]bool{utilPkg + ".BytesToGUID": true}
 		for _, r := range ir.Returns(fn) {
 			res := dv.resolve(r.Results[0], dv.root)
 			call, isCall := res.v.(*ssa.Call)
 			if !isCall || ir.CallID(call) != utilPkg+".BytesToGUID" {
-				continue
+				// every result comes from the decoder: a text that is turned away before it
+				// (by a stricter syntax check of the function's own) is not decoded at all
+				ok, det = false, "the return at "+c.IPos(r)+" yields a value that does not come from decoding the text: some texts (for instance upper-case digits, which the hex decoder accepts) are answered without being decoded"
+				break
 			}
 			sl := dv.sliceDeep(call.Call.Args[0], res.fr)
 			if len(ir.CallsIn(sl, "encoding/hex.DecodeString", "encoding/hex.Decode")) > 0 && sl[fn.Params[0]] {
 				ok = true
 			}
 		}
-		c.R.Check(ok, "G6.pair", name(fn), "text->GUID", c.Pos(fn.Pos()), "text is hex-decoded (case-insensitive) and handed to the big-endian byte decoder", "result does not derive from BytesToGUID(hex.DecodeString(text))")
+		c.R.Check(ok, "G6.pair", name(fn), "text->GUID", c.Pos(fn.Pos()), "text is hex-decoded (case-insensitive) and handed to the big-endian byte decoder", det)
 	}
 	for _, spec := range []string{"efi/util.(*EFIGUID).Bytes", "efi/util.(*EFIGUID).Format"} {
 		// the text family itself may use the text-order bytes
@@ -574,6 +577,7 @@ func precedesInCFG(fn *ssa.Function, a, b ssa.Instruction) bool {
 // ---------------------------------------------------------------- C18
 
 func checkC18(c *Ctx) {
+	c.rulePartialField("T6.partial", func(f *ssa.Function) bool { return strings.Contains(name(f), "efi/device.") })
 	// H2: boot names
 	type site struct {
 		spec string
